@@ -98,6 +98,22 @@ CHECKS = {
 NOT_APPLICABLE = {
  "C06": "Statement about the law of Monte-Carlo averages over all seeds: no bounded space whose exhaustive enumeration decides it (2^64 seeds x unbounded run length); fixed-seed moment tests would be sampling, a different family. Decidable parts are claimed under C01/C05 (exact finite kernels), C02/C03 (role of every draw), C08 (stream distinctness). See DESIGN.md §4.",
 }
+# additions made in later rounds (appended to the level text)
+EXTRA = {
+ "C01": " The generator word behind each injected variate also varies in the bits the uniform conversion discards (zeros, ones, rounding tie, just below the tie at step level; all ones in the full sweeps). Histories of <= 3-4 operations {step, assign current_state, replace target} and variable-length candidates are enumerated as well.",
+ "C02": " Field-mutation histories: positions (same shape and one more row), step_size, n_leapfrog re-assigned between two steps.",
+ "C03": " Slice variates up to 1e6 (leaves with energy error in [1000, 1000+e) are not divergent), NaN-region targets, relocate-then-step histories, trees of depth 11-13.",
+ "C04": " Step-size search cases with forced initial momenta next to support boundaries and on Gaussians of sd 1e-5 / 1e4 / 1e5 (more than 10 halvings / doublings), non-termination caught by an evaluation budget in the harness targets.",
+ "C05": " Histories: current_state re-assigned (same length, longer, shorter) between sweeps; two consecutive runs (run;run, run;run_progress) in which the recording conditional's own counter must continue; fault points (conditional panics at call k).",
+ "C07": " All 64 single-bit flips of the base seeds 0 and 42 give pairwise different output per sampler; constructions from library proposals that were used 0/1/70 times before agree bit for bit after seed().",
+ "C08": " Every chain's proposal generator is also compared with every other chain's acceptance generator; library proposal streams for all single-bit flips of seed 42 are pairwise distinct.",
+ "C10": " Long runs: the per-chain tracker's count is exact across 2^24 updates (premise 'final message carries n = total' of the reporter model); thorough: a real run_progress of 2^24+8 transitions.",
+ "C11": " Every family member <= 1023 draws and every array of the small exhaustive shapes is evaluated again as Fortran-ordered array, two axis-permuted views and a reversed strided view (split_rhat_mean_ess and RunStats::from).",
+ "C12": " Every family member <= 600 draws and the smallest exhaustive shapes again in four other memory layouts.",
+ "C14": " The NUTS deviation bound is chosen per configuration so that the enumeration completes; trees whose leaves are all valid but exceed the leaf limit (2^12 for eps >= 0.3, 2^17 below) are reported cut-offs, a hang verdict needs growth after an invalid leaf. The initial step-size search is explored alone under every initial momentum of an alphabet (7 targets x 2 starts next to the boundary), non-termination caught by an evaluation budget inside the harness targets.",
+ "C15": " All 4-operation histories over {sample d=1/3/70, set_seed(1), set_seed(2), clone}: draws after the last set_seed equal a fresh seeded proposal's.",
+ "C18": " Tail-occupancy band (beyond 1/2/3/4 sd, 6-sd binomial bands) on the pooled 256x256 blocks of seeds 0..39 (declared non-generalising); all single-bit flips of seeds 0 and 42 give pairwise different blocks.",
+}
 UNDER_CONSTRUCTION = "check not built yet in this revision (planned, see DESIGN.md §3); not claimed until its command exists"
 
 def main():
@@ -116,7 +132,7 @@ def main():
             "evidence_file": f"/verif/evidence/{pid}.json",
             "replay_cmd_template": f"./check.sh {pid} --replay {{path}}",
             "engine": eng,
-            "level_claimed": {"category": cat, "text": text, "design_ref": ref},
+            "level_claimed": {"category": cat, "text": text + EXTRA.get(pid, ""), "design_ref": ref},
             "level_note": note,
             "technique": tech,
         })
@@ -136,7 +152,7 @@ def main():
             "add_only": True,
         },
         "engines": [
-            {"name": "E1", "path": "mc/src/e1.rs", "serves_properties": ["C01", "C02", "C03", "C04", "C05", "C14", "C16"], "kind_free_text": "stateless DFS over injected random draws (choice vectors) of the real kernels, deviation-bounded"},
+            {"name": "E1", "path": "mc/src/e2.rs (fn explore) + mc/src/props/nutsref.rs (choice scripts)", "serves_properties": ["C01", "C02", "C03", "C04", "C05", "C14", "C16"], "kind_free_text": "stateless DFS over injected random draws (choice vectors) of the real kernels, deviation-bounded"},
             {"name": "E2", "path": "mc/src/e2.rs", "serves_properties": ["C07", "C10"], "kind_free_text": "controlled scheduler serialising the real std threads at hook points; DFS over interleavings/timer/poll choices under a deviation bound"},
             {"name": "E3", "path": "mc/src/props", "serves_properties": ["C04", "C09", "C10", "C13"], "kind_free_text": "BFS over operation histories, fresh real object per node, list/recurrence reference"},
             {"name": "E4", "path": "mc/src/props", "serves_properties": ["C08", "C11", "C12", "C13", "C15", "C16", "C17", "C18"], "kind_free_text": "bounded-exhaustive input enumeration against f64 reference implementations"},
@@ -144,7 +160,7 @@ def main():
         ],
         "checks": checks,
         "not_applicable": na,
-        "notes": "All checks are one Rust binary (mc) built by setup.sh / check.sh from /repo's working tree. Exit 0 = held on everything explored, 1 = VIOLATION line, 2 = machinery failure (never a verdict). Known findings: /verif/known_findings.json.",
+        "notes": "All checks are one Rust binary (mc) built by setup.sh / check.sh from /repo's working tree. setup.sh also builds /verif/plain (the same digest grid against /repo WITHOUT feature verif) and `mc HOOKS` checks hooks-on == hooks-off on it (hooks_transparency.json). Exit 0 = held on everything explored, 1 = VIOLATION line, 2 = machinery failure (never a verdict). Known findings: /verif/known_findings.json.",
     }
     json.dump(m, open(os.path.join(ROOT, "MANIFEST.json"), "w"), indent=1)
     print("wrote MANIFEST.json with", len(checks), "checks;", len(na), "not_applicable")
